@@ -988,14 +988,19 @@ func TestCoordinator(t *testing.T) {
 			confirmed = false
 			for _, cand := range cands {
 				try := replayFile{Property: id, Tier: tier, CaseID: cand.CaseID, Args: cand.Args, Key: key, Msg: cand.Msg}
-				ok := true
+				// three independent re-runs, at the same time (each is its own process)
+				oks := make([]bool, 3)
+				var cwg sync.WaitGroup
 				for i := 0; i < 3; i++ {
-					keys, _ := c.replayOnce(try)
-					if !contains(keys, key) {
-						ok = false
-						break
-					}
+					cwg.Add(1)
+					go func(i int) {
+						defer cwg.Done()
+						keys, _ := c.replayOnce(try)
+						oks[i] = contains(keys, key)
+					}(i)
 				}
+				cwg.Wait()
+				ok := oks[0] && oks[1] && oks[2]
 				if ok {
 					confirmed = true
 					rf = try
